@@ -816,7 +816,7 @@ func fieldName(t types.Type, idx int) string {
 		t = p.Elem()
 	}
 	if st, ok := t.Underlying().(*types.Struct); ok && idx < st.NumFields() {
-		return st.Field(idx).Name()
+		return recordedField(t, st.Field(idx).Name())
 	}
 	return fmt.Sprintf("f%d", idx)
 }
